@@ -1,7 +1,38 @@
 (* C07 — change handlers never run on a view older than the operator's own last write.
    Statements only; proofs in Proofs/Consistency.v.  The worker-side locals and the gate are Model/Consistency.v;
    the await granularity of queueing.worker (version match, clearing, processor call, re-arming: no suspension
-   in between) is the S-tie of Proofs/Queue.v. *)
+   in between) is the S-tie of Proofs/Queue.v.
+
+   CLAUSE AUDIT (statement + quantifier of properties.jsonl C07)
+   ---------------------------------------------------------------------------------------------------------
+   clause                                            | stated by
+   --------------------------------------------------+------------------------------------------------------
+   after the framework patches an object, no change  | FULL, in the property's own words: C07_barrier_views
+    handler runs on a view older than that patch     |  (version of the view >= version of the last own patch, or
+    until the patched version has come back, or the  |  the timeout has elapsed since the processor returned it),
+    timeout has elapsed since the patch              |  for every sequence of processed events delivered in version
+                                                     |  order; the underlying statement without the ordering
+                                                     |  assumption (echo dequeued at or before this event, or
+                                                     |  timeout): C07_barrier, C07_barrier_any_start, C07_gate
+   regardless of how many foreign events in between  | FULL: quantification over all lists of processed events;
+    / every echo delay / every API latency           |  C07_foreign_keeps, C07_echo_clears; times are arbitrary Z
+   raw-event handlers, indexing, daemons and timers  | C07_next_event_not_delayed (a new event ends the wait at
+    are not delayed by this barrier                  |  once), C07_gate_bounded (never past the deadline),
+                                                     |  C07_low_level_not_delayed (this event's low-level part
+                                                     |  precedes the gate: structural, by the order of the code;
+                                                     |  D-tie compares the call time of the watching stub) +
+                                                     |  C01_pressure (events waiting => pressure set) +
+                                                     |  closed-loop monitors raw-delayed / index-delayed
+   a carried patch is applied first, no handlers     | FULL: C07_skip_when_pending_patch
+   the worker outlives the deadline                  | FULL: C07_worker_outlives_deadline
+   finaliser never released while inconsistent       | C07_release_never_inconsistent_partial / _refuted (objects
+    (code comment; not part of the property text)    |  without a changing cause; no finding: outside the text)
+   patches by daemons/timers/handlers' own API calls | not covered (outside the stated scope: not tracked by worker)
+   consistency_timeout = 0                           | barrier disabled by configuration (model: T = 0 records no
+                                                     |  outstanding patch; theorems hold vacuously)
+   ---------------------------------------------------------------------------------------------------------
+   Model <-> code: D-tie (exhaustive product of gate inputs on the real process_resource_causes), T-tie (every
+   consistency_time / wait_for timeout of the real worker), S-tie (worker skeleton), closed-loop monitor. *)
 From Coq Require Import ZArith String Bool List.
 From KV Require Import Gen.Awaits Model.QueueSk Model.Consistency Proofs.Queue Proofs.Consistency.
 Import ListNotations.
@@ -78,3 +109,36 @@ Print Assumptions C07_example_echo.
 Theorem C07_example_timeout : exec 24 w0 None ex_steps_late = [(80, None); (104, Some ("7"%string, 80))].
 Proof. exact ex_timeout. Qed.
 Print Assumptions C07_example_timeout.
+
+(* --- the property in its own words.  For EVERY order-embedding `ver` of resourceVersions, every timeout T,
+       every sequence of processed events delivered in version order: at each invocation of change-detecting
+       handlers, the view is at least as new as the operator's last own patch of the object, or the timeout
+       has elapsed since the processor returned that patch. --- *)
+Theorem C07_barrier_views : forall (ver : rv -> Z) T l cur, delivered_in_order ver cur l ->
+  Forall (view_ok ver T) (exec_views T w0 None l).
+Proof. exact barrier_views. Qed.
+Print Assumptions C07_barrier_views.
+
+Theorem C07_barrier_views_example :
+  delivered_in_order ver10 0 ex_steps /\ delivered_in_order ver10 0 ex_steps_late /\
+  exec_views 24 w0 None ex_steps = [(80, Some "5"%string, None); (96, Some "7"%string, Some ("7"%string, 80))] /\
+  exec_views 24 w0 None ex_steps_late = [(80, Some "5"%string, None); (104, Some "6"%string, Some ("7"%string, 80))].
+Proof. exact ex_views_all. Qed.
+Print Assumptions C07_barrier_views_example.
+
+(* --- the wait is bounded by the deadline and ended at once by the next event --- *)
+Theorem C07_gate_bounded : forall g,
+  g_now g <= o_until (gate g) /\
+  o_until (gate g) <= Z.max (g_now g) (match g_ctime g with Some t => t | None => g_now g end).
+Proof. exact gate_bounded. Qed.
+Print Assumptions C07_gate_bounded.
+
+Theorem C07_next_event_not_delayed : forall g tp, g_press g = Some tp ->
+  o_until (gate g) <= Z.max (g_now g) tp.
+Proof. exact next_event_not_delayed. Qed.
+Print Assumptions C07_next_event_not_delayed.
+
+Theorem C07_interrupt_example : let g := mkG true false (Some 124) true true 100 (Some 110) in
+  o_slept (gate g) = true /\ o_until (gate g) = 110 /\ o_go (gate g) = false.
+Proof. exact ex_interrupt. Qed.
+Print Assumptions C07_interrupt_example.
